@@ -8,10 +8,11 @@ pub mod c09;
 pub mod c10;
 pub mod c11;
 pub mod c13;
+pub mod c14;
 pub mod c18;
 pub mod c19;
 
-pub static ALL: &[&PropDef] = &[&c01::DEF, &c02::DEF, &c03::DEF, &c04::DEF, &c09::DEF, &c10::DEF, &c11::DEF, &c13::DEF, &c18::DEF, &c19::DEF];
+pub static ALL: &[&PropDef] = &[&c01::DEF, &c02::DEF, &c03::DEF, &c04::DEF, &c09::DEF, &c10::DEF, &c11::DEF, &c13::DEF, &c14::DEF, &c18::DEF, &c19::DEF];
 
 pub fn find(id: &str) -> Option<&'static PropDef> {
     ALL.iter().copied().find(|p| p.id.eq_ignore_ascii_case(id))
